@@ -12,6 +12,7 @@ import (
 	"verif/checks/c08"
 	"verif/checks/c09"
 	"verif/checks/c10"
+	"verif/checks/c11"
 	"verif/checks/c12"
 	"verif/checks/c13"
 	"verif/checks/c14"
@@ -39,6 +40,7 @@ func main() {
 		"C08": c08.Check,
 		"C09": c09.Check,
 		"C10": c10.Check,
+		"C11": c11.Check,
 		"C12": c12.Check,
 		"C13": c13.Check,
 		"C16": c16.Check,
